@@ -5,7 +5,7 @@
 //     stepping by n gives decade fortune i + n; its first yearly fortune is yearly fortune 10 i
 //   yearly fortune j: age (end year - birth year + 1) + j, pillar year end year + j, hour pillar stepped by +-age
 // Callee contracts (external_body): ChildLimit getters (the child-limit unit c16_child_limit and the leaf run),
-// SixtyCycle::next / SixtyCycleYear::next (K: generated cycle harness, c11_k_year_next).
+// SixtyCycle::next / SixtyCycleYear::next (K: generated cycle harness c11_cycle_SixtyCycle, c11_k_sixty_year_next).
 use vstd::prelude::*;
 verus! {
 global size_of usize == 8;
